@@ -9,8 +9,8 @@ namespace AsyncFix.Link
 open AsyncFix.Session AsyncFix.Generated AsyncFix.Generated.ConnEnum
 open AsyncFix.Session.Msg
 
-def resendReqMsg (b : Int) : Msg := Msg.mk' mResendRequest [(tBeginSeqNo, pyStr b), (tEndSeqNo, "0")]
-def logonReplyMsg (e h : String) : Msg := Msg.mk' mLogon [(tEncryptMethod, e), (tHeartBtInt, h)]
+abbrev resendReqMsg (b : Int) : Msg := Msg.mk' mResendRequest [(tBeginSeqNo, pyStr b), (tEndSeqNo, "0")]
+abbrev logonReplyMsg (e h : String) : Msg := Msg.mk' mLogon [(tEncryptMethod, e), (tHeartBtInt, h)]
 
 section
 variable (s : Session) (stamp : String) (n : Int)
@@ -128,5 +128,131 @@ theorem absRow_session {n : Int} {f : Msg} (h : f.mtype = mLogon ∨ f.mtype = m
     f.mtype = mSequenceReset ∨ f.mtype = mLogout) : absRow (n, f) = (n, none) := by
   unfold absRow
   rcases h with h | h | h | h <;> simp [h, noReplay, mLogon, mResendRequest, mSequenceReset, mLogout]
+
+end AsyncFix.Link
+
+namespace AsyncFix.Link
+
+open AsyncFix.Session AsyncFix.Generated AsyncFix.Generated.ConnEnum
+open AsyncFix.Session.Msg
+
+/-! ### `send_msg` of the session-level messages, and the frames it leaves behind -/
+
+section
+variable (env : Env) (c : Conn)
+
+theorem frameGood_build_resend (s : Session) (stamp : String) (n b : Int) (h1 : isLatin1 s.sender = true)
+    (h2 : isLatin1 s.target = true) (h3 : isLatin1 stamp = true) :
+    FrameGood s.sender s.target (buildFrame s stamp (resendReqMsg b) n) :=
+  frameGood_build (latin1_build_resend s stamp n b h1 h2 h3) (kindOK_build_resend s stamp n b)
+
+theorem frameGood_build_logon (s : Session) (stamp : String) (n : Int) (e h : String) (h1 : isLatin1 s.sender = true)
+    (h2 : isLatin1 s.target = true) (h3 : isLatin1 stamp = true) (he : isLatin1 e = true) (hh : isLatin1 h = true) :
+    FrameGood s.sender s.target (buildFrame s stamp (logonReplyMsg e h) n) :=
+  frameGood_build (latin1_build_logon s stamp n e h h1 h2 h3 he hh) (kindOK_build_logon s stamp n e h)
+
+theorem frameGood_build_logout (s : Session) (stamp : String) (n : Int) (text : String) (h1 : isLatin1 s.sender = true)
+    (h2 : isLatin1 s.target = true) (h3 : isLatin1 stamp = true) (ht : isLatin1 text = true) :
+    FrameGood s.sender s.target (buildFrame s stamp (logoutMsg text) n) :=
+  frameGood_build (latin1_build_logout s stamp n text h1 h2 h3 ht) (kindOK_build_logout s stamp n text)
+
+theorem frameGood_build_gapFill (s : Session) (stamp : String) (n nw : Int) (h1 : isLatin1 s.sender = true)
+    (h2 : isLatin1 s.target = true) (h3 : isLatin1 stamp = true) :
+    FrameGood s.sender s.target (buildFrame s stamp (gapFillMsg n nw) n) :=
+  frameGood_build (latin1_build_gapFill s stamp n nw h1 h2 h3) (kindOK_build_gapFill s stamp n nw)
+
+theorem sendMsg_resendReq (b : Int) (h6 : st_NETWORK_CONN_ESTABLISHED < c.state)
+    (h7 : c.state ≠ st_LOGON_INITIAL_SENT) (l1 : isLatin1 c.sess.sender = true) (l2 : isLatin1 c.sess.target = true)
+    (l3 : isLatin1 env.stamp = true) (hrows : AllLt c.sess.nextOut c.journal.out) (hs : c.sock = true) :
+    sendMsg env (resendReqMsg b) c =
+      ⟨.ok (), sentFresh c (buildFrame c.sess env.stamp (resendReqMsg b) c.sess.nextOut),
+        [.write (buildFrame c.sess env.stamp (resendReqMsg b) c.sess.nextOut)]⟩ :=
+  sendMsg_fresh env _ c h6 (fun h => h7 h.2.1) (by show mResendRequest ≠ mTestRequest; decide)
+    (by show mResendRequest ≠ mSequenceReset; decide) rfl (latin1_build_resend _ _ _ _ l1 l2 l3) hrows hs
+
+theorem sendMsg_logonReply (e h : String) (h6 : st_NETWORK_CONN_ESTABLISHED < c.state)
+    (h7 : c.state ≠ st_LOGON_INITIAL_SENT) (l1 : isLatin1 c.sess.sender = true) (l2 : isLatin1 c.sess.target = true)
+    (l3 : isLatin1 env.stamp = true) (he : isLatin1 e = true) (hh : isLatin1 h = true)
+    (hrows : AllLt c.sess.nextOut c.journal.out) (hs : c.sock = true) :
+    sendMsg env (logonReplyMsg e h) c =
+      ⟨.ok (), sentFresh c (buildFrame c.sess env.stamp (logonReplyMsg e h) c.sess.nextOut),
+        [.write (buildFrame c.sess env.stamp (logonReplyMsg e h) c.sess.nextOut)]⟩ :=
+  sendMsg_fresh env _ c h6 (fun h => h7 h.2.1) (by show mLogon ≠ mTestRequest; decide)
+    (by show mLogon ≠ mSequenceReset; decide) rfl (latin1_build_logon _ _ _ _ _ l1 l2 l3 he hh) hrows hs
+
+theorem logoutMsg_get43 (text : String) : (logoutMsg text).get? tPossDupFlag = none := by
+  unfold logoutMsg Msg.mk'
+  by_cases h : text == "" <;> simp [h, Msg.get?, Msg.lookup, tText, tPossDupFlag]
+
+/-- Logout in an established phase (also LOGON_INITIAL_SENT: Logout is the one message the gate lets through) -/
+theorem sendMsg_logout (text : String) (h6 : st_NETWORK_CONN_ESTABLISHED < c.state)
+    (l1 : isLatin1 c.sess.sender = true) (l2 : isLatin1 c.sess.target = true)
+    (l3 : isLatin1 env.stamp = true) (ht : isLatin1 text = true)
+    (hrows : AllLt c.sess.nextOut c.journal.out) (hs : c.sock = true) :
+    sendMsg env (logoutMsg text) c =
+      ⟨.ok (), sentFresh c (buildFrame c.sess env.stamp (logoutMsg text) c.sess.nextOut),
+        [.write (buildFrame c.sess env.stamp (logoutMsg text) c.sess.nextOut)]⟩ :=
+  sendMsg_fresh env _ c h6 (fun h => h.2.2 rfl) (by show mLogout ≠ mTestRequest; decide)
+    (by show mLogout ≠ mSequenceReset; decide) (logoutMsg_get43 text) (latin1_build_logout _ _ _ _ l1 l2 l3 ht) hrows hs
+
+theorem absRow_build_resend (s : Session) (stamp : String) (k n b : Int) :
+    absRow (k, buildFrame s stamp (resendReqMsg b) n) = (k, none) := absRow_session (Or.inr (Or.inl rfl))
+
+theorem absRow_build_logon (s : Session) (stamp : String) (k n : Int) (e h : String) :
+    absRow (k, buildFrame s stamp (logonReplyMsg e h) n) = (k, none) := absRow_session (Or.inl rfl)
+
+theorem absRow_build_logout (s : Session) (stamp : String) (k n : Int) (text : String) :
+    absRow (k, buildFrame s stamp (logoutMsg text) n) = (k, none) :=
+  absRow_session (Or.inr (Or.inr (Or.inr rfl)))
+
+theorem absRow_build_gapFill (s : Session) (stamp : String) (k n nw : Int) :
+    absRow (k, buildFrame s stamp (gapFillMsg n nw) n) = (k, none) :=
+  absRow_session (Or.inr (Or.inr (Or.inl rfl)))
+
+/-! the same with the state ordinals written as numerals (the form `simp` can use as conditional rewrite rules) -/
+
+theorem sendMsg_resendReq' (b : Int) (h6 : 6 < c.state) (h7 : c.state ≠ 7)
+    (l1 : isLatin1 c.sess.sender = true) (l2 : isLatin1 c.sess.target = true)
+    (l3 : isLatin1 env.stamp = true) (hrows : AllLt c.sess.nextOut c.journal.out) (hs : c.sock = true) :
+    sendMsg env (resendReqMsg b) c =
+      ⟨.ok (), sentFresh c (buildFrame c.sess env.stamp (resendReqMsg b) c.sess.nextOut),
+        [.write (buildFrame c.sess env.stamp (resendReqMsg b) c.sess.nextOut)]⟩ :=
+  sendMsg_resendReq env c b h6 h7 l1 l2 l3 hrows hs
+
+theorem sendMsg_logonReply' (e h : String) (h6 : 6 < c.state) (h7 : c.state ≠ 7)
+    (l1 : isLatin1 c.sess.sender = true) (l2 : isLatin1 c.sess.target = true)
+    (l3 : isLatin1 env.stamp = true) (he : isLatin1 e = true) (hh : isLatin1 h = true)
+    (hrows : AllLt c.sess.nextOut c.journal.out) (hs : c.sock = true) :
+    sendMsg env (logonReplyMsg e h) c =
+      ⟨.ok (), sentFresh c (buildFrame c.sess env.stamp (logonReplyMsg e h) c.sess.nextOut),
+        [.write (buildFrame c.sess env.stamp (logonReplyMsg e h) c.sess.nextOut)]⟩ :=
+  sendMsg_logonReply env c e h h6 h7 l1 l2 l3 he hh hrows hs
+
+theorem sendMsg_logout' (text : String) (h6 : 6 < c.state)
+    (l1 : isLatin1 c.sess.sender = true) (l2 : isLatin1 c.sess.target = true)
+    (l3 : isLatin1 env.stamp = true) (ht : isLatin1 text = true)
+    (hrows : AllLt c.sess.nextOut c.journal.out) (hs : c.sock = true) :
+    sendMsg env (logoutMsg text) c =
+      ⟨.ok (), sentFresh c (buildFrame c.sess env.stamp (logoutMsg text) c.sess.nextOut),
+        [.write (buildFrame c.sess env.stamp (logoutMsg text) c.sess.nextOut)]⟩ :=
+  sendMsg_logout env c text h6 l1 l2 l3 ht hrows hs
+
+/-- Logout on a fresh transport: the gate lets it through, turns the state to LOGON_INITIAL_SENT and the role to
+INITIATOR -/
+theorem sendMsg_logout_conn' (text : String) (h6 : c.state = 6)
+    (l1 : isLatin1 c.sess.sender = true) (l2 : isLatin1 c.sess.target = true)
+    (l3 : isLatin1 env.stamp = true) (ht : isLatin1 text = true)
+    (hrows : AllLt c.sess.nextOut c.journal.out) (hs : c.sock = true) :
+    sendMsg env (logoutMsg text) c =
+      ⟨.ok (), sentFresh { setState c st_LOGON_INITIAL_SENT with role := roleInitiator }
+          (buildFrame c.sess env.stamp (logoutMsg text) c.sess.nextOut),
+        [.onState st_LOGON_INITIAL_SENT, .write (buildFrame c.sess env.stamp (logoutMsg text) c.sess.nextOut)]⟩ := by
+  have hc' := sendCore_fresh env (logoutMsg text) { setState c st_LOGON_INITIAL_SENT with role := roleInitiator }
+    (by show mLogout ≠ mTestRequest; decide) (by show mLogout ≠ mSequenceReset; decide) (logoutMsg_get43 text)
+    (latin1_build_logout c.sess _ _ _ l1 l2 l3 ht) hrows hs
+  rw [sendMsg, M.bind_ok (sendGate_conn (logoutMsg text) c h6 (Or.inr rfl)), hc']
+  rfl
+
+end
 
 end AsyncFix.Link
